@@ -531,6 +531,7 @@ type Contract struct {
 	Requires   []Clause
 	Captured   []Clause // requires about captured variables only: checked where the closure is created
 	Ensures    []Clause
+	AssumedEns []Clause // assume-ensures: assumed at call sites, not checked on the body (listed as assumptions)
 	Modifies   []string
 	HasMod     bool
 	LoopInv    map[int][]Clause
@@ -646,7 +647,7 @@ func specLines(f *ast.File, fset *token.FileSet) []struct {
 	return out
 }
 
-var clauseKeywords = []string{"stable", "iterates-requires", "iterates", "assume-result", "seq", "ghost-var", "requires-captured", "on-entry", "use", "requires", "ensures", "modifies", "loop", "inline", "pure", "trusted", "ghost-param", "on-call", "on-send", "at", "decreases",
+var clauseKeywords = []string{"assume-ensures", "stable", "iterates-requires", "iterates", "assume-result", "seq", "ghost-var", "requires-captured", "on-entry", "use", "requires", "ensures", "modifies", "loop", "inline", "pure", "trusted", "ghost-param", "on-call", "on-send", "at", "decreases",
 	"props", "let", "assert", "guards", "invariant", "ghost", "field", "holds", "unit", "recv", "call"}
 
 func stripComment(s string) string {
@@ -896,6 +897,10 @@ func parseContractFile(pkg string, path string, f *ast.File, fset *token.FileSet
 			if cur != nil {
 				cur.Decreases = parse(it.line, rest)
 			}
+		case "assume-ensures":
+			if cur != nil {
+				cur.AssumedEns = append(cur.AssumedEns, namedClause(it.line, rest))
+			}
 		case "iterates":
 			if cur != nil {
 				head, cond := rest, ""
@@ -1104,7 +1109,16 @@ func parseSpecFunc(rest string) (*SpecFunc, error) {
 	rest = strings.TrimSpace(strings.TrimPrefix(strings.TrimSpace(rest), "func"))
 	eqi := strings.Index(rest, " = ")
 	if eqi < 0 {
-		return nil, fmt.Errorf("spec func needs ' = body': %q", rest)
+		// uninterpreted: "spec func name(params) type"
+		j := strings.LastIndex(rest, ")")
+		if j < 0 {
+			return nil, fmt.Errorf("bad spec func header %q", rest)
+		}
+		name, params, err := parseHeader(rest[:j+1])
+		if err != nil {
+			return nil, err
+		}
+		return &SpecFunc{Name: name, Params: params, Result: strings.TrimSpace(rest[j+1:]), Text: rest}, nil
 	}
 	head, body := rest[:eqi], strings.TrimSpace(rest[eqi+3:])
 	j := strings.LastIndex(head, ")")
